@@ -63,9 +63,8 @@ fn band_version_requirement() -> semver::VersionReq {
 }
 
 fn band_version_supported(version: &str) -> bool {
-    semver::Version::parse(version)
-        .map(|sv| band_version_requirement().matches(&sv))
-        .unwrap()
+    // A version string that can't be parsed is not one we know how to read.
+    semver::Version::parse(version).is_ok_and(|sv| band_version_requirement().matches(&sv))
 }
 
 /// Each backup makes a new `band` containing an index directory.
